@@ -1832,6 +1832,7 @@ def replace_for_loops_with_set_list_comp(source: str) -> str:
                     value=ast.Name(id=target), attr=core.Wildcard("attr", ("add", "append"))
                 ),
                 args=[object],
+                keywords=[],
         ))
 
         augass_template = ast.AugAssign(op=(ast.Add, ast.Sub), target=ast.Name(id=target))
